@@ -59,13 +59,18 @@ def nary_kinds(t):
     return out
 
 
+def rd_kw(i):
+    from bind import replay_deferred as rd
+    return rd.KWNAMES[i].encode()
+
+
 def scenarios(nary):
     """(selector value, index of the alternative Python picks) for a tree with one n-ary node"""
     if nary is None:
         return [(0, 0)]
     if nary["fn"] == "chooses":
         if nary["form"] == "kw":
-            return [(b"k0", 0), (b"k1", 1)]
+            return [(rd_kw(0), 0), (rd_kw(1), 1)]
         if nary["form"] in ("list", "pos"):
             return [(0, 0), (1, 1), (-1, 1), (-2, 0)]      # a negative selector counts from the end, as Python indexing does
         return [(0, 0), (1, 1)]
@@ -130,6 +135,11 @@ def run(tier, seed):
     v.add_tlc(res2, "MC_Deferred richer operator set, <= %d operator nodes" % (2 if quick else 3))
     world = rd.World()
     trees = res.emits + res2.emits
+    if quick:
+        res3 = mc(2, False, 8, True)
+        v.add_tlc(res3, "MC_Deferred every call form of chooses / if_true_then_else, <= 2 operator nodes")
+        seen_t = {json.dumps(c["tree"], sort_keys=True) for c in trees}
+        trees += [c for c in res3.emits if json.dumps(c["tree"], sort_keys=True) not in seen_t]
     n_exec = 0
     for c in trees:
         t = c["tree"]
